@@ -681,6 +681,29 @@ fn hints(out: &mut dyn Write, r: &mut ChaCha20Rng, n: usize) {
             }
         }
     }
+    // bit-decomposition witnesses (sign gadget and every other to_bits call inside the gadgets)
+    emit(out, json!({"k":"reset","build":BUILD}));
+    let mut nsub = 0usize;
+    for g in ["decompress", "compress", "elligator"] {
+        for (k, (s, class)) in fin.iter().enumerate() {
+            if *class == "random" && k % 2 == 1 {
+                continue;
+            }
+            let p = if g == "compress" {
+                match Encoding32(*s).decode() {
+                    Some(e) => e,
+                    None => continue,
+                }
+            } else {
+                Element::IDENTITY
+            };
+            let ins = Ins { p, q: Element::IDENTITY, s: *s, k: vec![], cond: false };
+            nsub += bit_hints(out, g, &ins, class);
+            if nsub % 40 == 39 {
+                emit(out, json!({"k":"reset","build":BUILD}));
+            }
+        }
+    }
     // offered coordinates when an element is witnessed: valid points in other scalings, the other coset member,
     // off-curve pairs, on-curve points outside the group
     emit(out, json!({"k":"reset","build":BUILD}));
@@ -715,6 +738,63 @@ fn hints(out: &mut dyn Write, r: &mut ChaCha20Rng, n: usize) {
             emit_run(out, "hint", g, Mode::Witness, false, &ins, None, &run, json!({"class": class}));
         }
     }
+}
+
+/// C14, bit-decomposition witnesses: after an honest synthesis, every run of 253 consecutive Boolean
+/// witnesses whose value c is canonical with c + q < 2^253 is overwritten (one window at a time) by the
+/// bits of c + q -- the other 253-bit decomposition of the same field element, of opposite parity --
+/// and the system re-evaluated.  The event carries the HONEST output; the specification demands, as for
+/// every hint event, that a satisfied system means the native operation accepts and the output is right.
+fn bit_hints(out: &mut dyn Write, g: &str, ins: &Ins, class: &str) -> usize {
+    use ark_ff::{BigInteger, PrimeField};
+    const NB: usize = 253;
+    let cs = ConstraintSystem::<Fq>::new_ref();
+    cs.set_optimization_goal(OptimizationGoal::Constraints);
+    cs.set_mode(SynthesisMode::Prove { construct_matrices: true });
+    let res = guarded(|| synth(g, cs.clone(), ins, Mode::Witness));
+    let outv = match res {
+        Ok(Ok(v)) => v,
+        _ => return 0,
+    };
+    cs.finalize();
+    let honest: Vec<Fq> = cs.borrow().unwrap().witness_assignment.clone();
+    let nw = honest.len();
+    let isb = |x: &Fq| x.is_zero() || x.is_one();
+    let mut done = 0usize;
+    let mut run = 0usize;
+    for end in 0..nw {
+        run = if isb(&honest[end]) { run + 1 } else { 0 };
+        if run < NB || done >= 6 {
+            continue;
+        }
+        let start = end + 1 - NB;
+        let w: Vec<bool> = honest[start..=end].iter().map(|x| x.is_one()).collect();
+        for be in [false, true] {
+            let le: Vec<bool> = if be { w.iter().rev().cloned().collect() } else { w.clone() };
+            let c = <Fq as PrimeField>::BigInt::from_bits_le(&le);
+            if c >= Fq::MODULUS {
+                continue;
+            }
+            let mut t = c;
+            if t.add_with_carry(&Fq::MODULUS) || t.num_bits() as usize > NB {
+                continue;
+            }
+            let evil = t.to_bits_le();
+            {
+                let mut inner = cs.borrow_mut().unwrap();
+                for i in 0..NB {
+                    let b = if be { evil[NB - 1 - i] } else { evil[i] };
+                    inner.witness_assignment[start + i] = if b { Fq::one() } else { Fq::zero() };
+                }
+            }
+            let sat = cs.is_satisfied().ok();
+            cs.borrow_mut().unwrap().witness_assignment = honest.clone();
+            let r = Run { sat, nc: cs.num_constraints(), ni: cs.num_instance_variables(), nw: cs.num_witness_variables(), mh: 0, out: outv.clone(), err: None };
+            emit_run(out, "hint", g, Mode::Witness, false, ins, None, &r, json!({"class": class, "bitsub": start, "be": be}));
+            done += 1;
+        }
+    }
+    done
 }
 
 struct Encoding32(Fq);
